@@ -47,6 +47,7 @@ type Op struct {
 	Sz  int    `json:",omitempty"` // marshalled size, filled when run
 	Ap  bool   `json:",omitempty"` // fault ops: the write was applied although the call returned an error; crashinflush: the batch was written
 	Stg int    `json:",omitempty"` // saveweightf: 0 = the leader-weight write fails, 1 = the region-weight write
+	Cached []string `json:",omitempty"` // loadwarm: the warm cache before the load (filled when run)
 	Par int    `json:",omitempty"` // flush only: run it in its own goroutine and overlap the next Par ops with it
 }
 
@@ -143,6 +144,8 @@ func (o Op) coq() string {
 		return "OLoadOnce"
 	case "loadoncecache":
 		return "OLoadOnceIntoCache"
+	case "loadwarm":
+		return "OLoadWarm " + coqfmt.List(o.Cached)
 	case "loadoncebad":
 		return "OLoadOnceCorrupt " + coqfmt.ZU(o.ID)
 	case "loadoncepair":
@@ -371,6 +374,9 @@ func (w *world) exec(o *Op) string {
 		case "saveregionf":
 			r := o.V.region(o.ID)
 			o.Sz = proto.Size(r)
+			if w.bc != nil { // a heartbeat updates the cache first; the save that follows fails ("not fatal", logged only)
+				w.bc.CheckAndPutRegion(core.NewRegionInfo(r, nil))
+			}
 			err = w.st.SaveRegion(r)
 		case "delregionf":
 			err = w.st.DeleteRegion(&metapb.Region{Id: o.ID})
@@ -529,6 +535,42 @@ func (w *world) exec(o *Op) string {
 			}
 		}
 		return "BRegions " + status(err) + " " + coqfmt.List(xs)
+	case "loadwarm":
+		// a member that is elected again without a restart: LoadClusterInfo reloads from storage over its warm cluster, with
+		// the callback the cluster passes (CheckAndPutLoadedRegion where the tree has it, CheckAndPutRegion before that fix)
+		if w.bc == nil {
+			w.bc = core.NewBasicCluster()
+		}
+		bc := w.bc
+		before := bc.GetRegions()
+		sort.Slice(before, func(i, j int) bool { return before[i].GetID() < before[j].GetID() })
+		o.Cached = nil
+		for _, r := range before {
+			o.Cached = append(o.Cached, coqItem(r.GetMeta()))
+		}
+		type loadedPutter interface {
+			CheckAndPutLoadedRegion(*core.RegionInfo, func(*metapb.Region) error) []*core.RegionInfo
+		}
+		put := bc.CheckAndPutRegion
+		if lp, ok := interface{}(bc).(loadedPutter); ok {
+			put = func(r *core.RegionInfo) []*core.RegionInfo { return lp.CheckAndPutLoadedRegion(r, w.st.SaveRegion) }
+		}
+		var xs []string
+		n := 0
+		st := guarded(func() error {
+			return w.st.LoadRegions(func(r *core.RegionInfo) []*core.RegionInfo {
+				w.guard(&n)
+				xs = append(xs, coqItem(r.GetMeta()))
+				return put(r)
+			})
+		})
+		rs := bc.GetRegions()
+		sort.Slice(rs, func(i, j int) bool { return rs[i].GetID() < rs[j].GetID() })
+		cs := make([]string, len(rs))
+		for i, r := range rs {
+			cs[i] = coqItem(r.GetMeta())
+		}
+		return fmt.Sprintf("BCache %s %s\n   %s\n   %s", st, coqfmt.List(xs), coqfmt.List(cs), coqfmt.List(dump(w.base.Base)))
 	case "loadoncecache":
 		// the start-up load of this process: LoadRegionsOnce(CheckAndPutRegion) on its own cluster; the cluster stays (warm)
 		if w.bc == nil {
@@ -872,6 +914,29 @@ func genRegions(r *rng.R, k int) Case {
 		c.Ops = append(c.Ops, Op{K: []string{"flush", "flush", "cancelclose", "reopen"}[r.Intn(4)]})
 	}
 	c.Ops = append(c.Ops, Op{K: []string{"loadregions", "loadonce", "loadregions"}[r.Intn(3)]})
+	if !rsMode && !overlap && len(saved) > 0 && r.Pct(50) {
+		// the member keeps its cluster over two leadership terms: start-up load, heartbeats whose saves succeed, fail
+		// unapplied or fail applied, then the reload of the next term over the warm cache
+		c.Ops = append(c.Ops, Op{K: "budget", P: -1}, Op{K: "loadoncecache"})
+		for k := 0; k < 1+r.Intn(6); k++ {
+			id := saved[r.Intn(len(saved))]
+			j := 0
+			for j = range ids {
+				if ids[j] == id {
+					break
+				}
+			}
+			v := genDisjoint(r, j, big)
+			v.ConfVer += 40 + uint64(k)
+			switch r.Intn(3) {
+			case 0:
+				c.Ops = append(c.Ops, Op{K: "saveregion", ID: id, V: v})
+			default:
+				c.Ops = append(c.Ops, Op{K: "saveregionf", ID: id, V: v, Ap: r.Pct(30)})
+			}
+		}
+		c.Ops = append(c.Ops, Op{K: "loadwarm"}, Op{K: "loadregions"})
+	}
 	if rsMode {
 		switch r.Intn(4) {
 		case 0:
@@ -993,8 +1058,12 @@ func fixedCases() []Case {
 	handOver := Case{Backend: "mem", Ops: []Op{{K: "switch", P: 1}, {K: "saveregion", ID: 4, V: v1}, {K: "saveregion", ID: 9, V: &RV{Start: 50, End: 60, ConfVer: 1, Version: 1}},
 		{K: "flush"}, {K: "reopen"}, {K: "loadoncecache"}, {K: "saveregion", ID: 4, V: v1b}, {K: "switch", P: 1}, {K: "loadoncecache"},
 		{K: "flush"}, {K: "reopen"}, {K: "loadregions"}}}
+	// the audit's history: the etcd save of a newer epoch fails (the cache keeps it), the member is elected again and reloads
+	// over its warm cache: the record must be brought up to date, not deleted
+	reelected := Case{Backend: "etcd", Ops: []Op{{K: "saveregion", ID: 1, V: &RV{Start: 0, End: 100, ConfVer: 5, Version: 5}}, {K: "saveregion", ID: 2, V: &RV{Start: 100, End: 0, ConfVer: 5, Version: 5}},
+		{K: "loadoncecache"}, {K: "saveregionf", ID: 1, V: &RV{Start: 0, End: 100, ConfVer: 6, Version: 5}, Ap: false}, {K: "loadwarm"}, {K: "loadregions"}}}
 	return []Case{
-		wrap, delBoth, pruneBoth, onceRetry, oncePair, cancelClose, handOver, tick, cif(true), cif(false), faults, raceCase(true), raceCase(false), raceCase(true), raceCase(false),
+		wrap, delBoth, pruneBoth, onceRetry, oncePair, cancelClose, handOver, reelected, tick, cif(true), cif(false), faults, raceCase(true), raceCase(false), raceCase(true), raceCase(false),
 		// S9 on the stores namespace and on the regions namespace
 		{Backend: "mem", Ops: []Op{{K: "savestore", ID: 1, P: 1}, {K: "savestore", ID: top, P: 2}, {K: "loadstores"}}},
 		{Backend: "mem", Ops: []Op{{K: "saveregion", ID: 1, V: one}, {K: "saveregion", ID: top, V: two}, {K: "loadregions"}}},
@@ -1284,6 +1353,8 @@ func checkGo(R *res.Result, c Case) {
 				R.Violate("C17:load-once:returned-before-first-load-finished",
 					"two overlapping LoadRegionsOnce callers: the second returned nil without delivering anything while the first had delivered a single region", slim(c))
 			}
+		case "loadwarm":
+			known = false // judged by the Coq monitor (cache vs storage); what is wanted is resynchronised at the next load
 		case "loadregions", "loadonce", "loadcache", "loadoncecache":
 			if strings.Contains(ob, " RDiverged ") {
 				R.Violate("C17:load:endless-scan", "the region load does not terminate (the callback was invoked more than 3x the number of saved items)", slim(c))
